@@ -35,7 +35,7 @@ WireC == BagOf(<<Msg(1, K1, 111), Msg(2, K1, 211), Msg(2, K1, 212), Msg(2, K1, 2
 WireQ == BagOf(<<Msg(1, K1, 111), Msg(1, K1, 111), Msg(2, K1, 211), Msg(2, K1, 212), Msg(1, K2, 121), Msg(9, K1, 911)>>)
 WireT3 == BagOf(<<Msg(1, K1, 111), Msg(2, K1, 211), Msg(2, K1, 212), Msg(1, K2, 121)>>)
 \* ---- overflow: Bound = 2
-WireO == BagOf(<<Msg(1, K1, 111), Msg(2, K1, 211), Msg(1, K2, 121), Msg(2, K2, 221), Msg(1, K1, 111)>>)
+WireO == BagOf(<<Msg(1, K1, 111), Msg(2, K1, 211), Msg(1, K2, 121), Msg(2, K2, 221)>>)
 
 \* ---- liveness / sensitivity (small)
 WireL == BagOf(<<Msg(1, K1, 111), Msg(2, K1, 211), Msg(2, K1, 212), Msg(1, K2, 121), Msg(9, K2, 921)>>)
